@@ -86,7 +86,10 @@ def evaluate(case):
                 ("/", name, epoch, version, release, ""), ("//", name, epoch, version, release, ".rpm"), ("./", name, epoch, version, release, ""),
                 ("/srv/mirror.rpms/pool/" + "sub-dir.1/" * 30, name, epoch, version, release, ".rpm"),
                 ("pool/x86_64.rpm.d/", name, epoch, version, release, ".rpm"),
-                ("Fedora 40/Every thing/", name, epoch, version, release, ".rpm"), ("tab\there/", name, epoch, version, release, ""),
+                ("Fedora 40/Every thing/", name, epoch, version, release, ".rpm"),
+                # the directory repeats the package's own name with a dash (build roots, flat repositories named after it)
+                ("work/%s-repo/" % name, name, epoch, version, release, ".rpm"), ("build/%s-2.18/%s-/" % (name, name), name, epoch, version, release, ""),
+                ("2013:12:12/Packages/", name, epoch, version, release, ".rpm"), ("/mnt/koji/packages/%s/" % name, name, epoch, version, release, ".rpm"), ("tab\there/", name, epoch, version, release, ""),
                 ("", name + ".rpm-macros", epoch, version, release, ".rpm"),
                 ("", name, epoch, version, release + ".rpmfusion", ".rpm"),
                 ("a/", name, 10 ** 10 + epoch, version, release, ""),
@@ -101,6 +104,19 @@ def evaluate(case):
                 continue
             if got2 != exp2:
                 fails.append("parse_nvra(%r) = %s, expected %s" % (s2 if len(s2) < 120 else s2[:60] + "..." + s2[-50:], got2, exp2))
+                continue
+            if len(s2) < 200 and e_ < 10 ** 12:
+                # the same string offered to the manifest builder (it carries an epoch): filed under the canonical key
+                m2 = Rpms()
+                src2 = arch in ("src", "nosrc")
+                canon2 = "%s-%d:%s-%s.%s" % (n_, e_, v_, r_, arch)
+                try:
+                    m2.add("V", "x86_64", s2, "p/x.rpm", None, "source" if src2 else "binary", None if src2 else "srcpkg-0:1-1.src")
+                    keys2 = [k for sk in m2.rpms["V"]["x86_64"] for k in m2.rpms["V"]["x86_64"][sk]]
+                    if keys2 != [canon2]:
+                        fails.append("Rpms.add(%r) filed key %r, expected canonical %r" % (s2, keys2, canon2))
+                except Exception as exc:
+                    fails.append("Rpms.add(%r) raised %s: %s" % (s2, type(exc).__name__, exc))
         if fails:
             return fails[:3]
     if p["epoch"]:
